@@ -12,6 +12,7 @@ fire/discard `if`) and by the real-time correspondence run (harness/cmd/c04).
 (`Variant.cached`) it is refuted by `C04_discarded_if_late_counterexample_old`.
 -/
 import Pandora.Proofs.C04
+import Pandora.Proofs.C04Pool
 import Pandora.Bridge.Waiter
 
 namespace Pandora.Props.C04
@@ -257,6 +258,228 @@ theorem C04_model_is_source (w : Waiter) (e : Env) (c d s : Bool) :
   ⟨Bridge.Waiter.Wait_eq w e, Bridge.Waiter.IsSlowDown_eq w c, Bridge.Waiter.fires_eq d s, rfl, rfl,
     Bridge.Waiter.timerArmedFor_eq⟩
 
+/-- The whole loop of `instance.Run` is what the current source says: the regenerated pass (IsFinished at the head, Acquire,
+`Wait`, then `IsSlowDown` of the SAME waiter, then Shoot | Report) equals the model's `iteration`, of which `runLoop` is the
+iteration (`runLoop_cons`); the regenerated `IsFinished` is the model's. -/
+theorem C04_loop_is_source (d : Bool) (w : Waiter) (it : Iter) (rest : List Iter) (c : Bool) (left : Int) :
+    Gen.Waiter.iteration d w it = iteration .fresh d w it ∧
+    Gen.Waiter.IsFinished c left = isFinished c left ∧
+    runLoop .fresh d w (it :: rest) =
+      (match Gen.Waiter.iteration d w it with
+      | (_, .loopEnd) => ([], .loopEnd)
+      | (_, .outOfAmmo) => ([], .outOfAmmo)
+      | (w', .skip) => runLoop .fresh d w' rest
+      | (w', .shoot) => (Ev.shoot it :: (runLoop .fresh d w' rest).1, (runLoop .fresh d w' rest).2)
+      | (w', .discard s) => (Ev.discard it s :: (runLoop .fresh d w' rest).1, (runLoop .fresh d w' rest).2)) := by
+  refine ⟨Bridge.Waiter.iteration_eq d w it, Bridge.Waiter.IsFinished_eq c left, ?_⟩
+  rw [Bridge.Waiter.iteration_eq]
+  exact runLoop_cons .fresh d w it rest
+
+/-! ### the statement's positive form, the cancellation corner, the default -/
+
+/-- REPAIRED `Wait`, discard_overflow on: a drawn token that is two seconds or more late when it is picked up IS reported as
+the discarded sample (and, by `C04_every_drawn_token_acted`, that Report is its only action). -/
+theorem C04_late_is_discarded (w : Waiter) (h : List Iter) (hc : ClockOK w h) (hp : ReadAfterPick h) :
+    ∀ it ∈ drawn .fresh w h, it.ctxDoneSlow = false → ∀ next, it.env.tok = some next → maxOverdue ≤ it.env.pick - next →
+      Ev.discard it discardedShootSample ∈ (runLoop .fresh true w h).1 := by
+  intro it hit hctx next htok hlate
+  rw [← C04_every_drawn_token_acted .fresh true w h, List.mem_map] at hit
+  obtain ⟨ev, hev, rfl⟩ := hit
+  cases ev with
+  | shoot jt =>
+    have := C04_discarded_if_late w h hc hp jt hev hctx next htok
+    simp only [Ev.iter] at hlate
+    omega
+  | discard jt s =>
+    have hs := ((C04_discard_sample .fresh true w h).1 jt s hev).1
+    rw [Bridge.Waiter.DiscardedShootSample_eq] at hs
+    subst hs
+    exact hev
+
+/-- "picked up ≥ 2 s late ⇒ not fired" WITHOUT the hypothesis that the run context is alive when `IsSlowDown` is asked. -/
+def C04_discarded_if_late_any_ctx_statement : Prop :=
+  ∀ (w : Waiter) (h : List Iter), ClockOK w h → ReadAfterPick h →
+    ∀ it, Ev.shoot it ∈ (runLoop .fresh true w h).1 →
+      ∀ next, it.env.tok = some next → it.env.pick - next < maxOverdue
+
+/-- That stronger statement is false for the code (`IsSlowDown` answers false on a done context): a run that is cancelled
+between the entry `select` of `Wait` and `IsSlowDown` fires a token that is 3 s late. The property quantifies over response-time
+histories, not over cancellations; `C04_discarded_if_late` (hypothesis `ctxDoneSlow = false`) is the part that holds. -/
+theorem C04_discarded_if_late_any_ctx_counterexample : ¬ C04_discarded_if_late_any_ctx_statement := by
+  intro hs
+  let i1 : Iter := { env := { tok := some 7000000000, pick := 10000000000, now := 10000000000, arm := 10000000000, ret := 10000000000 },
+                     ctxDoneSlow := true }
+  have h := hs Waiter.init [i1] (by decide) (by decide) i1 (by decide) 7000000000 rfl
+  revert h
+  decide
+
+/-- The discard_overflow a pool runs with: a pool section that does not mention the option gets `true` (the regenerated
+`readConfig` default, put under the regenerated config key of `InstancePoolConfig.DiscardOverflow`, into the list that is decoded
+afterwards; the instances' flag is copied from that field and assigned nowhere else), an explicit value is kept. So the
+`discardOverflow = true` theorems describe a default run, `C04_off` a run with `discard_overflow: false`. -/
+theorem C04_default_on :
+    (∀ g, Gen.Waiter.cliPoolDiscardOverflow g = effectiveDiscard g) ∧
+    effectiveDiscard none = true ∧ (∀ b, effectiveDiscard (some b) = b) ∧
+    Gen.Waiter.cliDefaultLookupKey = Gen.Waiter.poolConfigDiscardKey ∧
+    Gen.Waiter.cliDefaultPutKey = Gen.Waiter.poolConfigDiscardKey ∧
+    Gen.Waiter.poolConfigDiscardKey = "discard_overflow" ∧
+    Gen.Waiter.cliPoolsGetKey = Gen.Waiter.cliPoolsSetKey ∧
+    Gen.Waiter.cliDecodesAfterDefault = true ∧
+    Gen.Waiter.instanceDiscardFrom = ["InstancePoolConfig.DiscardOverflow"] ∧
+    Gen.Waiter.discardFieldAssignments = 0 := by
+  obtain ⟨h1, h2, h3, h4, h5, h6, h7, h8⟩ := Bridge.Waiter.cli_default_wiring
+  exact ⟨Bridge.Waiter.cliPoolDiscardOverflow_eq, rfl, fun _ => rfl, h1, h2, h3, h4.trans h5.symm, h6, h7, h8⟩
+
+/-! ### the end of the run -/
+
+/-- instant at which an action is over: a shot when the response has arrived, a discard when it is reported -/
+def endT : Ev → Int
+  | .shoot it => it.env.ret + it.dur
+  | .discard it _ => it.env.ret
+
+/-- `B + (k+1)·step` without a product -/
+def chainBound (B step : Int) : Nat → Int
+  | 0 => B + step
+  | k + 1 => chainBound B step k + step
+
+/-- The END of every action of an instance, discards included (REPAIRED `Wait`, discard_overflow on): with the hypotheses of
+`C04_run_bounded`, `B = start + D + 2 s + ε + R`, the instance picking up its first acted token before `B` and every further one
+within `δ` of the end of the previous action, the `k`-th action is over by `B + (k+1)(δ+ε)`: shots by `B` itself whatever the
+response times were, and each discard costs only the loop overhead `δ+ε`, never a response time. -/
+theorem C04_run_end_bounded (w : Waiter) (h : List Iter) (start D R ε δ : Int) (hε : 0 ≤ ε) (hδ : 0 ≤ δ) (hR : 0 ≤ R)
+    (hc : ClockOK w h) (hp : ReadAfterPick h)
+    (htoks : ∀ it ∈ h, ∀ next, it.env.tok = some next → next ≤ start + D)
+    (hresp : ∀ it ∈ h, it.dur ≤ R)
+    (hlag : ∀ it ∈ h, ∀ next, it.env.tok = some next → it.env.ret ≤ max it.env.pick next + ε)
+    (hctx : ∀ it ∈ h, it.ctxDoneSlow = false)
+    (hfirst : ∀ ev, (runLoop .fresh true w h).1[0]? = some ev → ev.iter.env.pick ≤ start + D + maxOverdue + ε + R)
+    (hseq : ∀ k a b, (runLoop .fresh true w h).1[k]? = some a → (runLoop .fresh true w h).1[k + 1]? = some b →
+      b.iter.env.pick ≤ endT a + δ) :
+    ∀ k ev, (runLoop .fresh true w h).1[k]? = some ev →
+      endT ev ≤ chainBound (start + D + maxOverdue + ε + R) (δ + ε) k := by
+  have hm : (0 : Int) ≤ maxOverdue := by decide
+  have hmono : ∀ k, start + D + maxOverdue + ε + R ≤ chainBound (start + D + maxOverdue + ε + R) (δ + ε) k := by
+    intro k; induction k with
+    | zero => simp only [chainBound]; omega
+    | succ k ih => simp only [chainBound]; omega
+  -- a discard is over within ε of max(pick, token), and its token lies inside the profile
+  have hdisc : ∀ it s, Ev.discard it s ∈ (runLoop .fresh true w h).1 →
+      it.env.ret ≤ max it.env.pick (start + D) + ε := by
+    intro it s hev
+    have hmem := runLoop_iter_mem .fresh true w h _ hev
+    simp only [Ev.iter] at hmem
+    obtain ⟨next, htok, _⟩ := C04_no_early .fresh true w h hc _ hev
+    simp only [Ev.iter] at htok
+    have h1 := htoks it hmem next htok
+    have h3 := hlag it hmem next htok
+    rcases Int.le_total it.env.pick next with hle | hle
+    · rw [Int.max_eq_right hle] at h3
+      rcases Int.le_total it.env.pick (start + D) with hle2 | hle2
+      · rw [Int.max_eq_right hle2]; omega
+      · rw [Int.max_eq_left hle2]; omega
+    · rw [Int.max_eq_left hle] at h3
+      rcases Int.le_total it.env.pick (start + D) with hle2 | hle2
+      · rw [Int.max_eq_right hle2]; omega
+      · rw [Int.max_eq_left hle2]; omega
+  intro k
+  induction k with
+  | zero =>
+    intro ev hk
+    have hev : ev ∈ (runLoop .fresh true w h).1 := List.mem_of_getElem? hk
+    cases ev with
+    | shoot it =>
+      have := C04_run_bounded w h start D R ε hc hp htoks hresp hlag hctx it hev
+      simp only [endT, chainBound]; omega
+    | discard it s =>
+      have h1 := hdisc it s hev
+      have h2 := hfirst _ hk
+      simp only [Ev.iter] at h2
+      simp only [endT, chainBound]
+      rcases Int.le_total it.env.pick (start + D) with hle2 | hle2
+      · rw [Int.max_eq_right hle2] at h1; omega
+      · rw [Int.max_eq_left hle2] at h1; omega
+  | succ k ih =>
+    intro ev hk
+    have hev : ev ∈ (runLoop .fresh true w h).1 := List.mem_of_getElem? hk
+    cases ev with
+    | shoot it =>
+      have := C04_run_bounded w h start D R ε hc hp htoks hresp hlag hctx it hev
+      have := hmono (k + 1)
+      simp only [endT]; omega
+    | discard it s =>
+      have hlt : k < (runLoop .fresh true w h).1.length := by
+        have := (List.getElem?_eq_some_iff.mp hk).1
+        omega
+      have hprev : (runLoop .fresh true w h).1[k]? = some ((runLoop .fresh true w h).1[k]) := List.getElem?_eq_getElem hlt
+      have h0 := ih _ hprev
+      have h1 := hdisc it s hev
+      have h2 := hseq k _ _ hprev hk
+      have h3 := hmono k
+      simp only [Ev.iter] at h2
+      simp only [endT, chainBound]
+      rcases Int.le_total it.env.pick (start + D) with hle2 | hle2
+      · rw [Int.max_eq_right hle2] at h1; omega
+      · rw [Int.max_eq_left hle2] at h1; omega
+
+/-! ### all instance counts: any number of instances on one shared schedule, every interleaving -/
+
+/-- No token is invented, lost or handed out twice — for every number of instances, every interleaving of their schedule
+accesses, cancellation and ammo shortage included: the tokens handed out so far followed by those still in the schedule are the
+profile. -/
+theorem C04_pool_conservation (toks : List Int) (steps : List PStep) :
+    (prun (PState.init toks) steps).out.map Prod.snd ++ (prun (PState.init toks) steps).sched = toks := by
+  simpa [PState.init] using prun_cons (PState.init toks) steps
+
+/-- In a run without cancellation and with ammo available (`Calm` steps), every token handed to an instance is acted on by that
+instance exactly once and in order (either variant, discard_overflow on or off): the tokens of instance `i`'s actions are the
+tokens the schedule gave to `i`. -/
+theorem C04_pool_each_token_acted_once (v : Variant) (d : Bool) (toks : List Int) (steps : List PStep)
+    (hs : ∀ s ∈ steps, Calm s) (i : Nat) :
+    (poolEvents v d toks steps i).map (fun ev => ev.iter.tok) = ownToks (prun (PState.init toks) steps) i := by
+  unfold poolEvents
+  rw [← (prun_inv v _ steps (PInv.init v toks) hs).drawnEq i, ← C04_every_drawn_token_acted v d]
+  simp [List.map_map]
+
+/-- discard_overflow off, any number of instances, any interleaving, no cancellation: every action of every instance is a Shoot
+(nothing is discarded), each instance fires exactly the tokens it was handed, and once any instance has left its loop the
+schedule is empty — so ALL tokens of the profile have been handed out and fired. -/
+theorem C04_pool_off_all_fired (v : Variant) (toks : List Int) (steps : List PStep) (hs : ∀ s ∈ steps, Calm s) :
+    (∀ i, ∀ ev ∈ poolEvents v false toks steps i, ev.isShoot = true) ∧
+    (∀ i, (poolEvents v false toks steps i).map (fun ev => ev.iter.tok) = ownToks (prun (PState.init toks) steps) i) ∧
+    (∀ i, (prun (PState.init toks) steps).phase i = .exited →
+      (prun (PState.init toks) steps).sched = [] ∧ (prun (PState.init toks) steps).out.map Prod.snd = toks) := by
+  refine ⟨fun i ev hev => ?_, fun i => C04_pool_each_token_acted_once v false toks steps hs i, fun i he => ?_⟩
+  · unfold poolEvents at hev
+    rw [C04_off, List.mem_map] at hev
+    obtain ⟨_, _, rfl⟩ := hev
+    rfl
+  · have hnil := (prun_inv v _ steps (PInv.init v toks) hs).drained i he
+    refine ⟨hnil, ?_⟩
+    have := C04_pool_conservation toks steps
+    rw [hnil] at this
+    simpa using this
+
+/-- discard_overflow on, any number of instances: likewise every handed-out token gets exactly one action, and once an instance
+has left its loop all tokens of the profile have been handed out — each fired or reported as discarded. -/
+theorem C04_pool_on_all_acted (v : Variant) (toks : List Int) (steps : List PStep) (hs : ∀ s ∈ steps, Calm s) :
+    (∀ i, (poolEvents v true toks steps i).map (fun ev => ev.iter.tok) = ownToks (prun (PState.init toks) steps) i) ∧
+    (∀ i, (prun (PState.init toks) steps).phase i = .exited → (prun (PState.init toks) steps).out.map Prod.snd = toks) :=
+  ⟨fun i => C04_pool_each_token_acted_once v true toks steps hs i,
+   fun i he => ((C04_pool_off_all_fired v toks steps hs).2.2 i he).2⟩
+
+/-- The timing clauses for EVERY instance of a pool (REPAIRED `Wait`, discard_overflow on; any instance count, any
+interleaving, cancellation allowed): under the clock hypotheses for that instance's own passes, none of its actions is early, a
+discarded token was ≥ 2 s late at the report, and a fired one was < 2 s late when picked up (context alive). -/
+theorem C04_pool_timing (toks : List Int) (steps : List PStep) (i : Nat)
+    (hc : ClockOK Waiter.init ((prun (PState.init toks) steps).hist i))
+    (hp : ReadAfterPick ((prun (PState.init toks) steps).hist i)) :
+    (∀ ev ∈ poolEvents .fresh true toks steps i, ∃ next, ev.iter.env.tok = some next ∧ next ≤ ev.iter.env.ret) ∧
+    (∀ it s, Ev.discard it s ∈ poolEvents .fresh true toks steps i →
+      ∃ next, it.env.tok = some next ∧ maxOverdue ≤ it.env.ret - next) ∧
+    (∀ it, Ev.shoot it ∈ poolEvents .fresh true toks steps i → it.ctxDoneSlow = false →
+      ∀ next, it.env.tok = some next → it.env.pick - next < maxOverdue) :=
+  ⟨C04_no_early .fresh true _ _ hc, C04_not_discarded_if_fresh .fresh _ _ hc, C04_discarded_if_late _ _ hc hp⟩
+
 /-! ### non-vacuity: concrete histories meeting the hypotheses, with the conclusions exercised -/
 
 /-- const 10 rps, 1 s responses, one instance: tokens at 0, 0.1, 0.2, 0.3 s picked up at 0, 1, 2, 3 s -/
@@ -281,5 +504,50 @@ example : (∀ it ∈ demo, ∀ next, it.env.tok = some next → next ≤ 0 + 40
     (∀ it ∈ demo, ∀ next, it.env.tok = some next → it.env.ret ≤ max it.env.pick next + 5000) ∧
     (∀ it ∈ demo, it.ctxDoneSlow = false) := by
   refine ⟨?_, by decide, ?_, by decide⟩ <;> (intro it hit next h; simp [demo] at hit; rcases hit with rfl | rfl | rfl | rfl | rfl <;> simp at h <;> subst h <;> decide)
+
+/-- `C04_no_early_wait`: a call that sleeps on the timer (token 1 s ahead of the reading) meets the hypotheses and returns true -/
+example : EnvOK { tok := some 5000000000, pick := 3900000000, now := 4000000000, arm := 4000001000, ret := 5000002000 } ∧
+    Waiter.init.lastNow ≤ 4000000000 ∧
+    (waitV .fresh Waiter.init { tok := some 5000000000, pick := 3900000000, now := 4000000000, arm := 4000001000, ret := 5000002000 }).ok = true := by
+  decide
+/-- `C04_not_discarded_if_fresh` / `C04_late_is_discarded`: `demo` contains a discard, of a drawn token that is 2.7 s late -/
+def demoLate : Iter :=
+  { env := { tok := some 300000000, pick := 3000000000, now := 3000000000, arm := 3000000000, ret := 3000000000 }, dur := 1000000000 }
+example : demoLate ∈ drawn .fresh Waiter.init demo ∧ demoLate.ctxDoneSlow = false ∧ demoLate.env.tok = some 300000000 ∧
+    maxOverdue ≤ demoLate.env.pick - 300000000 ∧
+    Ev.discard demoLate discardedShootSample ∈ (runLoop .fresh true Waiter.init demo).1 := by decide
+/-- `C04_run_end_bounded`: `demo` with δ = 1 µs meets `hfirst` and `hseq` (each pick-up is at the end of the previous action) -/
+example : (∀ ev, (runLoop .fresh true Waiter.init demo).1[0]? = some ev → ev.iter.env.pick ≤ 0 + 4000000000 + maxOverdue + 5000 + 1000000000) ∧
+    (∀ k < 5, ∀ a ∈ (runLoop .fresh true Waiter.init demo).1[k]?, ∀ b ∈ (runLoop .fresh true Waiter.init demo).1[k + 1]?,
+      b.iter.env.pick ≤ endT a + 1000) := by
+  refine ⟨?_, by decide⟩
+  intro ev hev
+  have : ev = (runLoop .fresh true Waiter.init demo).1[0] := by
+    have h0 : (runLoop .fresh true Waiter.init demo).1[0]? = some ((runLoop .fresh true Waiter.init demo).1[0]'(by decide)) :=
+      List.getElem?_eq_getElem (by decide)
+    rw [h0] at hev; injection hev with hev; exact hev.symm
+  subst this
+  decide
+
+/-- two instances (0 and 1) share const tokens 0, 0.1, 0.2 s; instance 0 answers in 1 s: a calm interleaving -/
+def pdemo : List PStep :=
+  [ { inst := 0 }, { inst := 1 },
+    { inst := 0, it := { env := { pick := 0, now := 0, arm := 0, ret := 0 }, dur := 1000000000 } },
+    { inst := 1, it := { env := { pick := 1000, now := 2000, arm := 3000, ret := 100001000 }, dur := 1000000000 } },
+    { inst := 0 },
+    { inst := 0, it := { env := { pick := 1000000000, now := 1000000000, arm := 1000000000, ret := 1000000000 } } },
+    { inst := 0, it := { env := { pick := 1000000000, now := 1000000000, arm := 1000000000, ret := 1000000000 } } },
+    { inst := 1, it := { env := { pick := 1100001000, now := 1100001000, arm := 1100001000, ret := 1100001000 } } },
+    { inst := 0 }, { inst := 1 } ]
+
+example : ∀ s ∈ pdemo, Calm s := by decide
+/-- instance 0 got tokens 0 and 0.2 s, instance 1 got 0.1 s; both have left their loops and the schedule is empty -/
+example : ownToks (prun (PState.init [0, 100000000, 200000000]) pdemo) 0 = [0, 200000000] ∧
+    ownToks (prun (PState.init [0, 100000000, 200000000]) pdemo) 1 = [100000000] ∧
+    (prun (PState.init [0, 100000000, 200000000]) pdemo).phase 0 = .exited ∧
+    (prun (PState.init [0, 100000000, 200000000]) pdemo).phase 1 = .exited ∧
+    (poolEvents .fresh false [0, 100000000, 200000000] pdemo 0).length = 2 := by decide
+example : ClockOK Waiter.init ((prun (PState.init [0, 100000000, 200000000]) pdemo).hist 0) ∧
+    ReadAfterPick ((prun (PState.init [0, 100000000, 200000000]) pdemo).hist 0) := by decide
 
 end Pandora.Props.C04
